@@ -13,7 +13,8 @@ import re
 from vxlib.common import Obligation, run
 from vxlib.rustsrc import Lost
 
-PROBES = [('root-header-attributes', 'a successful set_attribute on a header attribute of the root element (xmlns) leaves a file that can no longer be loaded'),
+PROBES = [('lenient-foreign-child', 'after lenient loading of a file that contains a sub-element of another version, calc_element_insert_range / list_valid_sub_elements / create_sub_element panic'),
+          ('root-header-attributes', 'a successful set_attribute on a header attribute of the root element (xmlns) leaves a file that can no longer be loaded'),
           ('mixed-set-character-data', 'set_character_data on an identifiable element with Mixed content (ECUC-QUERY-EXPRESSION in AUTOSAR_4-0-1) drops its SHORT-NAME')]
 
 
@@ -84,5 +85,4 @@ def check(ctx):
         checker_cmd='verus generated/{insertrange,attrset}.rs; vxnative ground lib {tables_wf,tables_modes}; vxnative api editconform 200000 <seed> survey; vxnative api editprobe <name>',
         trusted_base=['Verus 0.2026.09.13 + Z3', 'the reading of the node: ElementRaw as {elemname, elemtype, content: Vec, attributes: Vec}, child handles with uninterpreted name/type (the real accessors take the child lock)',
                       'find_sub_element is a function of its arguments (it reads only immutable statics)', 'Vec<usize>::cmp is the lexicographic order (vx_lex_cmp is verified against lex_cmp)',
-                      'precondition kids_listed (every existing child is listed for the version) holds for models built by the editing API; it is NOT guaranteed after lenient loading (see C12)',
                       'the oracle of api editconform is pairwise: it does not look at required-but-absent sub-elements (neither does the loader)'])
